@@ -1949,6 +1949,10 @@ func (c *Cache) additionalAnswer(ctx context.Context, msg *dns.Msg) *dns.Msg {
 				return dnsutil.SetRcode(msg, dns.RcodeServerFailure, false)
 			}
 			cnameReq.SetQuestion(cr.Target, q.Qtype)
+			// SetQuestion asks in class IN; the chase stays in the class
+			// of the question it completes, or an alias cached for
+			// another class would be finished with Internet-class data.
+			cnameReq.Question[0].Qclass = q.Qclass
 		}
 	}
 
